@@ -260,7 +260,7 @@ def extra_c19(tier, seed):
 
     def one(job):
         idx, (feat, cxx, std) = job
-        prof = dict(N=3, L=2, cap=0, head=1, manual=idx % 2, pay=(idx // 2) % 2 * 3, ctx=0, feat=feat, dev=(idx // 4) % 2, cfgorder=(idx // 2) % 2, cxx=cxx, std=std)
+        prof = dict(N=3, L=2, cap=(idx // 8) % 2 * 2, head=1, manual=idx % 2, pay=(idx // 2) % 2 * 3, ctx=0, feat=feat, dev=(idx // 4) % 2, cfgorder=(idx // 2) % 4, cxx=cxx, std=std)
         bdir = vlib.ensure(os.path.join(wd, "b%d" % idx))
         try:
             exe, blog = _build_tmp("m%d" % idx, prof, bdir)
